@@ -149,11 +149,7 @@ def runCase (s : GState) : String :=
           if !ties.isEmpty then "skip"      -- decided by ts_subtree_compare, not modelled
           else match diffS fb (flat tbl (ofDump d.root)) [] with
             | none => "ok"
-            | some m =>
-              -- the alternative runtime behaviour (root carries its own production's dynamic precedence)
-              match selectBest (parseAllCarry tbl symToks) with
-              | some b2 => if (diffS (flat tbl (ofPTree b2)) (flat tbl (ofDump d.root)) []).isNone then "ok" else s!"glr-tree:{m}"
-              | none => s!"glr-tree:{m}"
+            | some m => s!"glr-tree:{m}"
       | .fuelOut => "skip"
       | .fault f => if s.closed then s!"model-fault-on-closed-table:{repr f}" else "skip"
       | .rejected _ => if s.err then "ok" else "model-rejects-real-accepts"
@@ -224,7 +220,11 @@ def runCase (s : GState) : String :=
             -- greatest below the root, but not greatest once the start rule's own value counts
             some s!"dynamic-precedence-of-the-start-rule-ignored(kept={kept},best={best})"
           else some s!"dynamic-precedence-not-greatest(kept={kept},best={best})"
-        | some best, none => some s!"dynamic-precedence-not-greatest(kept={realDyn}?,best={best})"
+        | some best, none =>
+          -- no derivation has this total: the root does not carry the start production's own value
+          if maxDyn o wNoExtra == some realDyn && best != realDyn
+          then some s!"dynamic-precedence-of-the-start-rule-ignored(root={realDyn},best={best})"
+          else some s!"root-dynamic-precedence-is-no-derivation's-total(root={realDyn},best={best})"
         | none, _ => none
       else none
     | _, _ => none
